@@ -175,6 +175,57 @@ def pairwiseNonIsomorphic (base : G) (cs : List G) : Bool :=
   (List.range a.size).all fun x => (List.range a.size).all fun y =>
     !(x < y) || !(isoOver base (a.getD x base) (a.getD y base))
 
+/-! ### a complete invariant of connected covers over the base (for long lists)
+
+Number the chambers of the cover breadth-first from a start chamber (operations in index
+order) and write down, chamber by chamber in that numbering, the numbers of the images, the
+projection and the branching numbers.  Two connected covers are isomorphic over the base by a
+map sending start to start' iff the two codes coincide; every isomorphism over the base maps
+the fibre over base chamber 1 to itself, so the least code over the starts in that fibre is
+a complete isomorphism invariant. -/
+
+def bfsOrder (c : G) (start : Nat) : Array Nat × Array Nat :=
+  let rec go : Nat → Nat → Array Nat → Array Nat → Array Nat × Array Nat
+    | 0, _, order, num => (order, num)
+    | f + 1, pos, order, num =>
+      if pos ≥ order.size then (order, num) else
+      let d := order.getD pos 0
+      let r := c.indices.foldl (fun (r : Array Nat × Array Nat) i =>
+        let e := c.op i d
+        if e == 0 || e > c.size || r.2.getD e 1 != 0 then r
+        else (r.1.push e, r.2.setIfInBounds e (r.1.size + 1))) (order, num)
+      go f (pos + 1) r.1 r.2
+  go (c.size + 1) 0 #[start] ((Array.replicate (c.size + 1) 0).setIfInBounds start 1)
+
+def coverCodeFrom (base c : G) (start : Nat) : List Nat :=
+  let (order, num) := bfsOrder c start
+  order.toList.flatMap fun d =>
+    (c.indices.map fun i => num.getD (c.op i d) 0) ++ [proj base.size d] ++
+    ((List.range c.dim).map fun i => c.v i d)
+
+def lexLt : List Nat → List Nat → Bool
+  | [], [] => false
+  | [], _ :: _ => true
+  | _ :: _, [] => false
+  | x :: xs, y :: ys => x < y || (x == y && lexLt xs ys)
+
+/-- least code over the starts in the fibre over base chamber 1, preceded by the size -/
+def coverCode (base c : G) : List Nat :=
+  let starts := c.chambers.filter fun d => proj base.size d == 1
+  let codes := starts.map (coverCodeFrom base c)
+  c.size :: c.dim :: codes.foldl (fun best x => if best.isEmpty || lexLt x best then x else best) []
+
+def distinctCodes (base : G) (cs : List G) : Bool :=
+  let codes := (cs.map (coverCode base)).toArray
+  (List.range codes.size).all fun x => (List.range codes.size).all fun y =>
+    !(x < y) || codes.getD x [] != codes.getD y []
+
+/-- brute-force isomorphism search for short lists (and there cross-checked with the codes),
+    the complete invariant for long lists -/
+def nonIsomorphicOver (base : G) (cs : List G) : Bool :=
+  if cs.length ≤ 64 then pairwiseNonIsomorphic base cs && distinctCodes base cs
+  else distinctCodes base cs
+
 /-! ### exact rationals, curvature, simple connectivity in dimension 2 -/
 
 structure Q where
